@@ -455,15 +455,15 @@ func checkCodecInUse(c *Ctx, res *report.Result) {
 	// MakeDialOptions forces the codec
 	if f := resolve(c, res, rule, anchor{"transport/grpcutil", "", "MakeDialOptions"}); f != nil {
 		ok := false
+		name, _ := pkgConstString(c, "proto/compat", "CodecName")
 		for _, call := range flow.FindCalls(f, func(cc *ssa.CallCommon) bool { return flow.IsCallTo(cc, grpcPkg, "", "ForceCodecV2") }) {
 			if gc, isC := call.Common().Args[0].(*ssa.Call); isC && flow.IsCallTo(&gc.Call, "google.golang.org/grpc/encoding", "", "GetCodecV2") {
-				if s, isS := flow.ConstString(gc.Call.Args[0]); isS && s == "s2s-proxy-codec" {
+				if s, isS := flow.ConstString(gc.Call.Args[0]); isS && s == name && name != "" {
 					ok = true
 				}
 			}
 		}
-		name, _ := pkgConstString(c, "proto/compat", "CodecName")
-		res.Check(ok && name == "s2s-proxy-codec", rule, "MakeDialOptions forces compat.CodecName", fnPos(c.Prog, f), "grpc.ForceCodecV2(encoding.GetCodecV2(compat.CodecName))", "the dial options do not force the repairing codec")
+		res.Check(ok, rule, "MakeDialOptions forces compat.CodecName", fnPos(c.Prog, f), "grpc.ForceCodecV2(encoding.GetCodecV2(compat.CodecName))", "the dial options do not force the repairing codec")
 		// the forced option is in every returned list
 		inAll := true
 		for _, b := range f.Blocks {
